@@ -1,9 +1,33 @@
+// Command metricsx replays operation histories generated from spec/MetricsGen.tla against the real package
+// metrics (extension check X11) and records what the package did, for validation by spec/MetricsTrace.tla.
+//
+// usage: metricsx <scripts.ndjson> <trace.ndjson> [skip]
+//
+// The package keeps its registry, namespace, global labels and persistence switch in package variables, and a
+// process life is part of the histories (persisted counters): every life of a history is a child process of this
+// driver (metricsx -child <datadir>) that executes one operation per line of its standard input and answers on
+// file descriptor 3.  A child whose standard input ends exits at once, without stopping the modules.
+//
+// Strings of the model are sequences of ASCII codes; they are turned into Go strings here and back.
 package main
 
 import (
+	"bufio"
 	"bytes"
+	"encoding/json"
+	"errors"
 	"fmt"
+	"io"
+	"net"
+	"net/http"
 	"os"
+	"os/exec"
+	"sort"
+	"strconv"
+	"strings"
+	"sync"
+	"sync/atomic"
+	"syscall"
 	"time"
 
 	"github.com/safing/portbase/api"
@@ -15,38 +39,657 @@ import (
 	"github.com/safing/portbase/log"
 	"github.com/safing/portbase/metrics"
 	"github.com/safing/portbase/modules"
+
+	"verifharness/internal/vio"
 )
 
-func main() {
-	t0 := time.Now()
-	dir := os.Args[1]
-	os.Args = os.Args[:1]
-	if err := dataroot.Initialize(dir, 0o755); err != nil {
-		panic(err)
+type label struct {
+	N []int `json:"n"`
+	V []int `json:"v"`
+}
+
+type op struct {
+	Op      string  `json:"op"`
+	Kind    string  `json:"kind"`
+	ID      []int   `json:"id"`
+	Labels  []label `json:"labels"`
+	Perm    int     `json:"perm"`
+	Level   int     `json:"level"`
+	Persist bool    `json:"persist"`
+	IID     []int   `json:"iid"`
+	H       int     `json:"h"`
+	N       int     `json:"n"`
+	G       int     `json:"g"`
+	Key     int     `json:"key"`
+	Flag    bool    `json:"flag"`
+}
+
+type line struct {
+	Lid []int `json:"lid"`
+	V   int   `json:"v"`
+}
+
+type res struct {
+	Err   string `json:"err"`
+	Lid   []int  `json:"lid"`
+	V     int    `json:"v"`
+	Lines []line `json:"lines"`
+	Panic string `json:"panic,omitempty"`
+	Note  string `json:"note,omitempty"`
+}
+
+type script struct {
+	Steps []op `json:"steps"`
+}
+
+func emptyRes(e string) res { return res{Err: e, Lid: []int{}, Lines: []line{}} }
+
+func str(a []int) string {
+	b := make([]byte, len(a))
+	for i, x := range a {
+		b[i] = byte(x)
 	}
-	api.EnableServer = false
+	return string(b)
+}
+
+func codes(s string) []int {
+	r := make([]int, len(s))
+	for i := 0; i < len(s); i++ {
+		r[i] = int(s[i])
+	}
+	return r
+}
+
+var keys = map[int]string{1: "core:metrics/storage", 2: "core:metrics/other"}
+
+// ------------------------------------------------------------------------------------------ parent
+
+type child struct {
+	cmd    *exec.Cmd
+	in     io.WriteCloser
+	out    *bufio.Reader
+	outF   *os.File
+	stderr *capWriter
+}
+
+type capWriter struct {
+	mu  sync.Mutex
+	buf bytes.Buffer
+	max int
+}
+
+func (c *capWriter) Write(p []byte) (int, error) {
+	c.mu.Lock()
+	defer c.mu.Unlock()
+	if c.buf.Len() < c.max {
+		c.buf.Write(p)
+	}
+	return len(p), nil
+}
+
+func (c *capWriter) String() string {
+	c.mu.Lock()
+	defer c.mu.Unlock()
+	return c.buf.String()
+}
+
+func spawn(dir string) (*child, error) {
+	self, err := os.Executable()
+	if err != nil {
+		return nil, err
+	}
+	pr, pw, err := os.Pipe()
+	if err != nil {
+		return nil, err
+	}
+	cmd := exec.Command(self, "-child", dir)
+	cmd.ExtraFiles = []*os.File{pw}
+	cw := &capWriter{max: 6000}
+	cmd.Stderr = cw
+	in, err := cmd.StdinPipe()
+	if err != nil {
+		return nil, err
+	}
+	if err := cmd.Start(); err != nil {
+		return nil, err
+	}
+	_ = pw.Close()
+	return &child{cmd: cmd, in: in, out: bufio.NewReaderSize(pr, 1<<16), outF: pr, stderr: cw}, nil
+}
+
+func (c *child) call(o op) (res, error) {
+	b, _ := json.Marshal(o)
+	if _, err := c.in.Write(append(b, '\n')); err != nil {
+		return res{}, fmt.Errorf("child gone: %w", err)
+	}
+	type answer struct {
+		line []byte
+		err  error
+	}
+	ch := make(chan answer, 1)
+	go func() {
+		l, err := c.out.ReadBytes('\n')
+		ch <- answer{l, err}
+	}()
+	select {
+	case a := <-ch:
+		if a.err != nil {
+			return res{}, fmt.Errorf("child died: %w", a.err)
+		}
+		var r res
+		if err := json.Unmarshal(a.line, &r); err != nil {
+			return res{}, fmt.Errorf("bad answer: %w", err)
+		}
+		return r, nil
+	case <-time.After(60 * time.Second):
+		_ = c.cmd.Process.Kill()
+		return res{}, errors.New("child does not answer (60s)")
+	}
+}
+
+func (c *child) close() {
+	if c == nil {
+		return
+	}
+	_ = c.in.Close()
+	done := make(chan struct{})
+	go func() { _ = c.cmd.Wait(); close(done) }()
+	select {
+	case <-done:
+	case <-time.After(10 * time.Second):
+		_ = c.cmd.Process.Kill()
+		<-done
+	}
+	_ = c.outF.Close()
+}
+
+func firstLines(s string, n int) string {
+	ls := strings.Split(s, "\n")
+	if len(ls) > n {
+		ls = ls[:n]
+	}
+	return strings.Join(ls, "\n")
+}
+
+func runScript(tr *vio.Trace, h int, sc script) {
+	dir, err := os.MkdirTemp("", "metricsx-")
+	if err != nil {
+		tr.EmitRaw(map[string]any{"e": "setup-failed", "h": h, "why": err.Error()})
+		return
+	}
+	defer os.RemoveAll(dir)
+	tr.EmitRaw(map[string]any{"e": "new", "h": h})
+	var c *child
+	defer func() { c.close() }()
+	start := func() bool {
+		c.close()
+		c, err = spawn(dir)
+		if err != nil {
+			tr.EmitRaw(map[string]any{"e": "setup-failed", "h": h, "why": err.Error()})
+			return false
+		}
+		return true
+	}
+	if !start() {
+		return
+	}
+	for _, o := range sc.Steps {
+		if o.Op == "proc" {
+			if !start() {
+				return
+			}
+			tr.EmitRaw(map[string]any{"e": "op", "h": h, "op": o, "res": emptyRes("ok")})
+			continue
+		}
+		r, err := c.call(o)
+		if err != nil {
+			// the process died in this step
+			c.close()
+			r = emptyRes("crash")
+			r.Panic = err.Error() + "\n" + firstLines(c.stderr.String(), 14)
+			tr.EmitRaw(map[string]any{"e": "op", "h": h, "op": o, "res": r})
+			tr.Flush()
+			c = nil
+			return
+		}
+		if r.Err == "skip" {
+			// not applicable in the state the real package is in (the history was generated along another of
+			// the outcomes the model allows): left out
+			continue
+		}
+		tr.EmitRaw(map[string]any{"e": "op", "h": h, "op": o, "res": r})
+		if r.Err == "infra" {
+			return
+		}
+	}
+}
+
+func main() {
+	if len(os.Args) >= 3 && os.Args[1] == "-child" {
+		childMain()
+		return
+	}
+	if len(os.Args) < 3 {
+		fmt.Fprintln(os.Stderr, "usage: metricsx <scripts.ndjson> <trace.ndjson> [skip]")
+		os.Exit(2)
+	}
+	skip := 0
+	if len(os.Args) > 3 {
+		skip, _ = strconv.Atoi(os.Args[3])
+	}
+	tr, err := vio.NewTrace(os.Args[2])
+	if err != nil {
+		fmt.Fprintln(os.Stderr, err)
+		os.Exit(2)
+	}
+	h := 0
+	err = vio.ReadLines(os.Args[1], func(b []byte) error {
+		defer func() { h++ }()
+		if h < skip {
+			return nil
+		}
+		var sc script
+		if err := json.Unmarshal(b, &sc); err != nil {
+			return err
+		}
+		runScript(tr, h, sc)
+		tr.Flush()
+		return nil
+	})
+	tr.Close()
+	if err != nil {
+		fmt.Fprintln(os.Stderr, err)
+		os.Exit(2)
+	}
+}
+
+// ------------------------------------------------------------------------------------------ child
+
+type handle struct {
+	kind    string
+	counter *metrics.Counter
+	src     *int64 // what the function of a gauge / fetching counter returns
+	m       metrics.Metric
+}
+
+var (
+	handles = map[int]*handle{}
+	dataDir string
+	baseURL string
+	client  *http.Client
+)
+
+var portLock *os.File
+
+func freePort() (int, error) {
+	for try := 0; try < 200; try++ {
+		l, err := net.Listen("tcp", "127.0.0.1:0")
+		if err != nil {
+			return 0, err
+		}
+		p := l.Addr().(*net.TCPAddr).Port
+		_ = l.Close()
+		// the lock files are shared with the other api drivers: no two of them on one port
+		f, err := os.OpenFile(fmt.Sprintf("%s/verif-apiauth-port-%d.lock", os.TempDir(), p), os.O_CREATE|os.O_RDWR, 0o600)
+		if err != nil {
+			return 0, err
+		}
+		if syscall.Flock(int(f.Fd()), syscall.LOCK_EX|syscall.LOCK_NB) != nil {
+			_ = f.Close()
+			continue
+		}
+		portLock = f
+		return p, nil
+	}
+	return 0, errors.New("no free loopback port")
+}
+
+// builtin reports whether an exported name belongs to a metric the module registers itself.
+func builtin(name string) bool {
+	if i := strings.IndexAny(name, "{ "); i >= 0 {
+		name = name[:i]
+	}
+	for _, p := range []string{"info", "runtime", "host_", "logs_", "go_", "process_"} {
+		if strings.Contains(name, p) {
+			return true
+		}
+	}
+	return false
+}
+
+func classify(err error) string {
+	switch {
+	case err == nil:
+		return "ok"
+	case errors.Is(err, metrics.ErrAlreadyStarted):
+		return "started"
+	case errors.Is(err, metrics.ErrAlreadySet):
+		return "alreadyset"
+	case errors.Is(err, metrics.ErrAlreadyRegistered):
+		return "dup"
+	case errors.Is(err, metrics.ErrAlreadyInitialized):
+		return "already"
+	case errors.Is(err, metrics.ErrInvalidOptions):
+		return "invalid"
+	case strings.Contains(err.Error(), "too early"):
+		return "early"
+	case strings.Contains(err.Error(), "must match"):
+		return "invalid"
+	}
+	return "error:" + err.Error()
+}
+
+func value(v any) int {
+	switch x := v.(type) {
+	case uint64:
+		return int(x)
+	case float64:
+		return int(x)
+	case nil:
+		return -1
+	}
+	return -99
+}
+
+// parseLines turns Prometheus text into the lines of the model: "<labeled id> <integer>".
+func parseLines(text string) ([]line, string) {
+	ls := []line{}
+	for _, l := range strings.Split(text, "\n") {
+		if l == "" || strings.HasPrefix(l, "#") || builtin(l) {
+			continue
+		}
+		i := strings.LastIndexByte(l, ' ')
+		if i < 0 {
+			return ls, "line without value: " + l
+		}
+		v, err := strconv.Atoi(l[i+1:])
+		if err != nil {
+			return ls, "value is not an integer: " + l
+		}
+		ls = append(ls, line{Lid: codes(l[:i]), V: v})
+	}
+	return ls, ""
+}
+
+var phase = "pre"
+
+func exec1(o op) (r res) {
+	r = emptyRes("ok")
+	switch {
+	case phase == "dead",
+		phase != "pre" && o.Op == "start",
+		phase != "up" && (o.Op == "enable" || o.Op == "stop" || o.Op == "http" || o.Op == "inc" || o.Op == "set"):
+		return emptyRes("skip")
+	}
+	defer func() {
+		if p := recover(); p != nil {
+			r = emptyRes("panic")
+			r.Panic = fmt.Sprint(p)
+		}
+	}()
+	switch o.Op {
+	case "ns":
+		r.Err = classify(metrics.SetNamespace(str(o.ID)))
+	case "glabel":
+		r.Err = classify(metrics.AddGlobalLabel(str(o.ID), str(o.IID)))
+	case "start":
+		os.Args = []string{os.Args[0], "--metrics-instance=" + str(o.ID)}
+		if err := modules.Start(); err != nil {
+			r.Err = "fail"
+			r.Note = err.Error()
+			phase = "dead"
+			return r
+		}
+		phase = "up"
+		if _, err := database.Register(&database.Database{Name: "core", StorageType: "fstree"}); err != nil {
+			r.Err = "infra"
+			r.Note = err.Error()
+		}
+	case "new":
+		labels := map[string]string{}
+		for _, l := range o.Labels {
+			labels[str(l.N)] = str(l.V)
+		}
+		if len(o.Labels) == 0 && o.H%2 == 0 {
+			labels = nil
+		}
+		opts := &metrics.Options{
+			Permission: api.Permission(o.Perm), ExpertiseLevel: config.ExpertiseLevel(o.Level),
+			Persist: o.Persist, InternalID: str(o.IID),
+		}
+		hd := &handle{kind: o.Kind, src: new(int64)}
+		*hd.src = int64(o.N)
+		var err error
+		switch o.Kind {
+		case "counter":
+			var c *metrics.Counter
+			c, err = metrics.NewCounter(str(o.ID), labels, opts)
+			if err == nil {
+				hd.counter, hd.m = c, c
+				r.V = int(c.Get())
+			}
+		case "gauge":
+			var g *metrics.Gauge
+			g, err = metrics.NewGauge(str(o.ID), labels, func() float64 { return float64(atomic.LoadInt64(hd.src)) }, opts)
+			if err == nil {
+				hd.m = g
+				r.V = int(g.CurrentValue())
+			}
+		case "fcounter":
+			var fn func() uint64
+			if !o.Flag {
+				fn = func() uint64 { return uint64(atomic.LoadInt64(hd.src)) }
+			}
+			var f *metrics.FetchingCounter
+			f, err = metrics.NewFetchingCounter(str(o.ID), labels, fn, opts)
+			if err == nil {
+				hd.m = f
+				r.V = int(f.CurrentValue())
+			}
+		case "hist":
+			var hi *metrics.Histogram
+			hi, err = metrics.NewHistogram(str(o.ID), labels, opts)
+			if err == nil {
+				hd.m = hi
+				r.V = -1
+			}
+		default:
+			r.Err = "bad-op"
+			return r
+		}
+		r.Err = classify(err)
+		if err == nil {
+			handles[o.H] = hd
+			r.Lid = codes(hd.m.LabeledID())
+		} else {
+			r.Note = err.Error()
+		}
+	case "inc":
+		hd := handles[o.H]
+		if hd == nil || hd.counter == nil {
+			r.Err = "skip"
+			return r
+		}
+		var wg sync.WaitGroup
+		gate := make(chan struct{})
+		for g := 0; g < o.G; g++ {
+			wg.Add(1)
+			go func() {
+				defer wg.Done()
+				<-gate
+				for i := 0; i < o.N; i++ {
+					hd.counter.Inc()
+				}
+			}()
+		}
+		close(gate)
+		wg.Wait()
+		r.V = int(hd.counter.Get())
+	case "set":
+		hd := handles[o.H]
+		if hd == nil || hd.counter != nil || hd.kind == "hist" {
+			r.Err = "skip"
+			return r
+		}
+		atomic.StoreInt64(hd.src, int64(o.N))
+		r.V = value(getValue(hd.m))
+	case "write":
+		var b bytes.Buffer
+		metrics.WriteMetrics(&b, api.Permission(o.Perm), config.ExpertiseLevel(o.Level))
+		var note string
+		r.Lines, note = parseLines(b.String())
+		if note != "" {
+			r.Err, r.Note = "format", note
+		}
+	case "http":
+		if client == nil {
+			r.Err = "infra"
+			return r
+		}
+		lv := []string{"user", "expert", "developer"}[o.Level]
+		url := baseURL + "/metrics?level=" + lv
+		if o.Flag && o.Level == 2 {
+			url = baseURL + "/metrics" // developer is the default
+		}
+		var resp *http.Response
+		var err error
+		// the server manager of the api module starts to listen some time after the module start
+		for deadline := time.Now().Add(8 * time.Second); ; time.Sleep(3 * time.Millisecond) {
+			var req *http.Request
+			req, err = http.NewRequest(http.MethodGet, url, nil)
+			if err != nil {
+				break
+			}
+			req.Header.Set("X-Verif-Perm", strconv.Itoa(o.Perm))
+			resp, err = client.Do(req)
+			if err == nil || time.Now().After(deadline) {
+				break
+			}
+		}
+		if err != nil {
+			r.Err, r.Note = "infra", err.Error()
+			return r
+		}
+		body, _ := io.ReadAll(resp.Body)
+		_ = resp.Body.Close()
+		if resp.StatusCode != http.StatusOK {
+			r.Err, r.Note = "status:"+strconv.Itoa(resp.StatusCode), firstLines(string(body), 3)
+			return r
+		}
+		var note string
+		r.Lines, note = parseLines(string(body))
+		if note != "" {
+			r.Err, r.Note = "format", note
+		}
+	case "list":
+		for _, m := range metrics.ExportMetrics(api.Permission(o.Perm)) {
+			if builtin(m.LabeledID()) {
+				continue
+			}
+			r.Lines = append(r.Lines, line{Lid: codes(m.LabeledID()), V: value(m.CurrentValue)})
+		}
+	case "values":
+		vals := metrics.ExportValues(api.Permission(o.Perm), o.Flag)
+		ks := make([]string, 0, len(vals))
+		for k := range vals {
+			if !builtin(k) {
+				ks = append(ks, k)
+			}
+		}
+		sort.Strings(ks)
+		for _, k := range ks {
+			r.Lines = append(r.Lines, line{Lid: codes(k), V: value(vals[k])})
+		}
+	case "enable":
+		r.Err = classify(metrics.EnableMetricPersistence(keys[o.Key]))
+	case "stop":
+		phase = "dead"
+		if err := modules.Shutdown(); err != nil {
+			r.Err = "error:" + err.Error()
+		}
+	default:
+		r.Err = "bad-op"
+	}
+	return r
+}
+
+func getValue(m metrics.Metric) any {
+	switch x := m.(type) {
+	case metrics.UIntMetric:
+		return x.CurrentValue()
+	case metrics.FloatMetric:
+		return x.CurrentValue()
+	}
+	return nil
+}
+
+func childMain() {
+	dataDir = os.Args[2]
+	os.Args = os.Args[:1] // the module system parses the command line
+	out := os.NewFile(3, "answers")
+	if out == nil {
+		os.Exit(2)
+	}
+	if err := dataroot.Initialize(dataDir, 0o755); err != nil {
+		fmt.Fprintln(os.Stderr, "dataroot:", err)
+		os.Exit(2)
+	}
 	log.SetLogLevel(log.CriticalLevel)
 	modules.SetStdErrReporting(false)
-	api.SetDefaultAPIListenAddress("127.0.0.1:1")
-	os.Args = []string{os.Args[0], "--metrics-instance", "inst"}
-	err := modules.Start()
-	fmt.Println("start", err, time.Since(t0))
-	_, err = database.Register(&database.Database{Name: "core", StorageType: "fstree"})
-	fmt.Println("dbreg", err)
-	c, err := metrics.NewCounter("a/b", map[string]string{"x": "1\"\n"}, &metrics.Options{Persist: true, Permission: api.PermitAnyone})
-	fmt.Println(err)
-	c.Inc()
-	c.Inc()
-	fmt.Println("enable", metrics.EnableMetricPersistence("core:metrics/storage"))
-	c.Inc()
-	var b bytes.Buffer
-	metrics.WriteMetrics(&b, api.PermitAnyone, config.ExpertiseLevelDeveloper)
-	fmt.Print(b.String())
-	b.Reset()
-	metrics.WriteMetrics(&b, api.PermitSelf, config.ExpertiseLevelDeveloper)
-	fmt.Println(len(b.String()))
-	for _, m := range metrics.ExportMetrics(api.PermitSelf) {
-		fmt.Println(m.LabeledID(), m.CurrentValue)
+	repCh := make(chan *modules.ModuleError, 1000)
+	modules.SetErrorReportingChannel(repCh)
+	go func() {
+		for range repCh {
+		}
+	}()
+	if os.Getenv("METRICSX_HTTP") == "1" {
+		port, err := freePort()
+		if err != nil {
+			fmt.Fprintln(os.Stderr, "port:", err)
+			os.Exit(2)
+		}
+		api.SetDefaultAPIListenAddress(fmt.Sprintf("127.0.0.1:%d", port))
+		baseURL = fmt.Sprintf("http://127.0.0.1:%d", port)
+		client = &http.Client{Timeout: 20 * time.Second}
+		_ = api.SetAuthenticator(func(r *http.Request, _ *http.Server) (*api.AuthToken, error) {
+			p, err := strconv.Atoi(r.Header.Get("X-Verif-Perm"))
+			if err != nil {
+				return nil, api.ErrAPIAccessDeniedMessage
+			}
+			return &api.AuthToken{Read: api.Permission(p), Write: api.Permission(p)}, nil
+		})
+	} else {
+		api.EnableServer = false
+		api.SetDefaultAPIListenAddress("127.0.0.1:1")
 	}
-	fmt.Println(modules.Shutdown(), time.Since(t0))
+
+	in := bufio.NewReaderSize(os.Stdin, 1<<16)
+	bw := bufio.NewWriter(out)
+	for {
+		l, err := in.ReadBytes('\n')
+		if len(bytes.TrimSpace(l)) > 0 {
+			var o op
+			var r res
+			if jerr := json.Unmarshal(l, &o); jerr != nil {
+				r = emptyRes("bad-op")
+			} else {
+				r = exec1(o)
+			}
+			if r.Lid == nil {
+				r.Lid = []int{}
+			}
+			if r.Lines == nil {
+				r.Lines = []line{}
+			}
+			b, _ := json.Marshal(r)
+			_, _ = bw.Write(b)
+			_ = bw.WriteByte('\n')
+			_ = bw.Flush()
+		}
+		if err != nil {
+			break
+		}
+	}
+	// the process ends without any farewell: what is not on disk by now is lost
+	os.Exit(0)
 }
